@@ -22,7 +22,9 @@ from pathlib import Path
 from . import env
 from .isolate import canon, sha
 
-EVID = env.VERIF / "evidence"
+# TLV_EVIDENCE_DIR: scratch destination used only when a seeded change is tried in a scratch
+# worktree (tools/seed.py detect-wt); registered commands never set it.
+EVID = Path(os.environ["TLV_EVIDENCE_DIR"]) if os.environ.get("TLV_EVIDENCE_DIR") else env.VERIF / "evidence"
 KNOWN = env.VERIF / "known_findings.jsonl"
 MAX_SAMPLES = 6
 MAX_FAIL_PER_SIG = 3
@@ -290,7 +292,7 @@ def run(prop: str, tier: str, jobs: int, dump_known: bool = False) -> int:
         "known_findings_reported": len(matched),
         "repo": str(env.REPO),
     }
-    EVID.mkdir(exist_ok=True)
+    EVID.mkdir(parents=True, exist_ok=True)
     (EVID / f"{prop}.json").write_text(json.dumps(ev, indent=1, default=str) + "\n")
 
     print(
